@@ -646,6 +646,8 @@ func (env *CEnv) call(e *CE) Term {
 			cfail("%v", err)
 		}
 		return Term{S: strconv.Itoa(w.typeID(t)), Sort: SInt}
+	case "allocmap": // the whole allocation map (to snapshot it into a ghost)
+		return Term{S: f.heapTerm(env.st, "alloc", "(Array Int Bool)"), Sort: "(Array Int Bool)"}
 	case "allocated":
 		return Term{S: "(select " + f.heapTerm(env.st, "alloc", "(Array Int Bool)") + " " + arg(0).S + ")", Sort: SBool}
 	case "fresh":
